@@ -473,29 +473,29 @@ pub fn workload(name: &str, tier: &str) -> Option<Box<dyn Workload>> {
         "c16" => Some(Box::new(c16::Positions::new(quick))),
         "miri" => Some(Box::new(miri::MiriCases)),
         "c13" => Some(Box::new(c13::Workspaces {
-            n: if quick { 600 } else { 12_000 },
+            n: if quick { 1500 } else { 12_000 },
         })),
         "c17" => Some(Box::new(c17::Navigation {
-            n: if quick { 160 } else { 1500 },
+            n: if quick { 320 } else { 10_000 },
             stride: 1,
         })),
         "c18" => Some(Box::new(c18::Renames {
-            n: if quick { 192 } else { 1000 },
+            n: if quick { 400 } else { 10_000 },
         })),
         "c15" => Some(Box::new(c15::Histories {
-            n: if quick { 640 } else { 5000 },
+            n: if quick { 1000 } else { 20_000 },
             max_steps: if quick { 25 } else { 60 },
         })),
         "c14" => Some(Box::new(c14::Bases {
-            n: if quick { 3000 } else { 100_000 },
-            cli_every: if quick { 15 } else { 100 },
+            n: if quick { 10_000 } else { 100_000 },
+            cli_every: if quick { 25 } else { 100 },
         })),
         "explore" => Some(Box::new(c01::Explore {
-            n: if quick { 40_000 } else { 3_000_000 },
+            n: if quick { 100_000 } else { 3_000_000 },
         })),
         "c01depth" => Some(Box::new(c01::Depth)),
         "c03" => Some(Box::new(c03::Docs {
-            n: if quick { 40_000 } else { 3_000_000 },
+            n: if quick { 100_000 } else { 3_000_000 },
         })),
         "c04" => Some(Box::new(c04::Crash {
             plan: texts::TextPlan::new(quick),
@@ -510,24 +510,24 @@ pub fn workload(name: &str, tier: &str) -> Option<Box<dyn Workload>> {
             n: if quick { 30_000 } else { 1_000_000 },
         })),
         "c05" => Some(Box::new(c05::Rewrites {
-            n: if quick { 3000 } else { 300_000 },
+            n: if quick { 12_000 } else { 300_000 },
         })),
         "c06proc" => Some(Box::new(c06::Processes {
-            n: if quick { 300 } else { 5000 },
+            n: if quick { 600 } else { 5000 },
             runs: if quick { 8 } else { 32 },
         })),
         "c06inproc" => Some(Box::new(c06::InProcess {
-            n: if quick { 3000 } else { 100_000 },
+            n: if quick { 10_000 } else { 300_000 },
         })),
         "c07unify" => Some(Box::new(c07::Unify::new(quick))),
         "c07inv" => Some(Box::new(c07::Invariance {
-            n: if quick { 4000 } else { 500_000 },
+            n: if quick { 10_000 } else { 500_000 },
         })),
         "c07agree" => Some(Box::new(c07::Agreement {
-            n: if quick { 3200 } else { 480_000 },
+            n: if quick { 9600 } else { 480_000 },
         })),
         "c09" => Some(Box::new(c09::Recursion {
-            n: if quick { 4000 } else { 1_000_000 },
+            n: if quick { 20_000 } else { 1_000_000 },
         })),
         "c10" => Some(Box::new(c10::Loads::new(quick))),
         "c11" => Some(Box::new(c11::Texts {
@@ -541,10 +541,10 @@ pub fn workload(name: &str, tier: &str) -> Option<Box<dyn Workload>> {
         })),
         "c12growth" => Some(Box::new(c12::Growth)),
         "c08" => Some(Box::new(c08::Binding {
-            n: if quick { 5000 } else { 1_000_000 },
+            n: if quick { 25_000 } else { 1_000_000 },
         })),
         "c02" => Some(Box::new(c02::Wt {
-            n: if quick { 6000 } else { 2_000_000 },
+            n: if quick { 30_000 } else { 2_000_000 },
             cfg: c02::wt_cfg(),
         })),
         _ => None,
